@@ -115,7 +115,7 @@ def r4_2(ctx, fmap, nons):
     for f in nons:
         spell.add(f)
         spell.add(rev[f])
-    ctx.require("flags" in {a.arg for a in fi.node.args.args}, "Mailbox.store lost its `flags` parameter")
+    ctx.require("flags" in {a.arg for a in fi.node.args.args}, "Mailbox.store lost its `flags` parameter", anchor=True)
     # where is `flags` rebound to the mapped list?
     remap_line = None
     for s in body_walk(fi.node):
@@ -507,12 +507,15 @@ def r4_7(ctx):
 
 
 def run(ctx):
-    r4_7(ctx)
-    r4_6(ctx)
-    fmap, nons = r4_1(ctx)
-    r4_2(ctx, fmap, nons)
-    r4_3(ctx)
-    r4_4(ctx)
-    r4_5(ctx)
+    ctx.do(r4_7)
+    ctx.do(r4_6)
+    res = ctx.do(r4_1)
+    if res is None:
+        return
+    fmap, nons = res
+    ctx.do(r4_2, fmap, nons)
+    ctx.do(r4_3)
+    ctx.do(r4_4)
+    ctx.do(r4_5)
     from . import c16
-    c16.r16_2(ctx)
+    ctx.do(c16.r16_2)
